@@ -148,7 +148,41 @@ def fam_fold(ctx):
     return {"must_report": ["ST.fold|fold_overwrite_bad"], "must_not_report": ["ST.fold|fold_accumulate_ok"]}
 
 
-FAMILIES = {"fold": fam_fold, "readloop": fam_readloop, "lock": fam_lock, "gate": fam_gate, "publish": fam_publish, "taint": fam_taint, "panic": fam_panic, "loop": fam_loop, "slice": fam_slice}
+def fam_bounds(ctx):
+    from . import bounds, c02
+    items = ["bounds_guarded_ok", "bounds_stale_guard_bad", "bounds_unguarded_bad", "bounds_callee_pre_bad", "bounds_callee_pre_ok"]
+    ids = {body(ctx, i).id: i for i in items}
+    helper = body(ctx, "key_at").id
+    cl = set(ids) | {helper}
+    res, req = bounds.analyse_closure(ctx.prog, cl, krate_prefix="verif_selftest")
+    for bid, i in ids.items():
+        hit = False
+        for sk in res[bid].sinks:
+            if getattr(sk, "delegated", None) or sk.proven:
+                continue
+            if any(c02.strict_input(t_, set()) for t_ in sk.taint):
+                hit = True
+        (ctx.bad if hit else ctx.ok)("ST.bounds", [i], "input-derived index not proven in bounds" if hit else "every input-derived index proven in bounds", body(ctx, i).loc())
+    return {"must_report": ["ST.bounds|bounds_stale_guard_bad", "ST.bounds|bounds_unguarded_bad", "ST.bounds|bounds_callee_pre_bad"],
+            "must_not_report": ["ST.bounds|bounds_guarded_ok", "ST.bounds|bounds_callee_pre_ok"]}
+
+
+def fam_errflow(ctx):
+    from . import errflow
+    sites = errflow.persist_sites(ctx.prog, "verif_selftest")
+    by = {}
+    for (b, c, k, d) in sites:
+        by.setdefault(b.item, []).append(k)
+    for i in ("persist_propagate_ok", "persist_swallow_bad", "persist_discard_bad"):
+        ks = by.get(i, [])
+        if not ks:
+            raise RuntimeError("selftest: no persistence call site found in %s" % i)
+        hit = "swallow" in ks
+        (ctx.bad if hit else ctx.ok)("ST.errflow", [i], "persistence error swallowed" if hit else "persistence error propagated", body(ctx, i).loc())
+    return {"must_report": ["ST.errflow|persist_swallow_bad", "ST.errflow|persist_discard_bad"], "must_not_report": ["ST.errflow|persist_propagate_ok"]}
+
+
+FAMILIES = {"bounds": fam_bounds, "errflow": fam_errflow, "fold": fam_fold, "readloop": fam_readloop, "lock": fam_lock, "gate": fam_gate, "publish": fam_publish, "taint": fam_taint, "panic": fam_panic, "loop": fam_loop, "slice": fam_slice}
 
 
 def for_families(names):
